@@ -53,7 +53,7 @@ def make_config(seed, tier="quick"):
         p_pause=r.choice([0.0, 0.0, 0.3, 0.6]),
         p_hook=r.choice([0.0, 0.0, 0.3]),
         hook_names=r.sample(["on_state_change", "on_message", "on_logon", "on_logout", "on_disconnect", "on_connect"],
-                            r.randint(1, 4)),
+                            r.randint(1, 4)) + (["should_replay"] if random.Random(seed ^ 0xC1150).random() < 0.5 else []),
         p_slow_close=r.choice([0.0, 0.0, 0.5]),
         slow_close_s=r.choice([0.3, 1.3]),
         mid_hook_stimuli=r.random() < 0.3,  # local sends / disconnects while a hook of the Logon handling is parked
